@@ -77,7 +77,7 @@ Proof.
     unfold sepch.
     match goal with E : is_ws _ || _ || _ = true |- _ => rewrite E end. lia.
   - (* Comment *)
-    destruct txt as [|a r]; [inversion H; subst; cbn [rank length]; lia|].
+    destruct txt as [|a r]; [break_in H; try discriminate; inversion H; subst; cbn [rank length]; lia|].
     break_in H; inversion H; subst; cbn [rank length]; try lia.
     match goal with E : is_nl _ = true |- _ => rewrite (is_nl_sepch _ E) end. lia.
   - (* At *) discriminate.
